@@ -1,6 +1,7 @@
 (* C19  Local rewrites keep or specialise the function exactly as documented.
    Statements only; proofs live in Proofs/SemRenameGate.v, SemReplaceInputs.v, SemRemove.v,
-   SemReplaceSub*.v (semantics) and Proofs/WF*.v (well-formedness, C02).
+   SemReplaceSub*.v (semantics), Proofs/WF*.v (well-formedness, C02), Proofs/EvalRenameGate.v,
+   EntryEq.v, EntryEqInputs.v (the entry points evaluate / get_truth_table).
 
    ren old new l := if l = old then new else l   (Proofs/SemRenameGate.v)
    Eval c a l v  is the relational semantics of Model/Sem.v (tied to the evaluators by C01). *)
@@ -12,6 +13,8 @@ Require Import Cirbo.Model.Base Cirbo.Model.Gate Cirbo.Model.Den Cirbo.Model.Cir
 Require Import Cirbo.Proofs.WFEmplace Cirbo.Proofs.WFStep Cirbo.Proofs.SemExt Cirbo.Proofs.SemRenameGate
         Cirbo.Proofs.SemReplaceInputs Cirbo.Proofs.SemRemove Cirbo.Proofs.SemReplaceSub Cirbo.Proofs.SemEvaluate2 Cirbo.Proofs.SemCex
         Cirbo.Proofs.C19Final.
+Require Import Cirbo.Proofs.TruthTable Cirbo.Proofs.EntryEq Cirbo.Proofs.EntryEqInputs Cirbo.Proofs.EvalRenameGate
+        Cirbo.Proofs.SemReplaceSubEntry.
 
 (* ================= rename_gate ================= *)
 (* errors exactly when the old label is absent / the new one present *)
@@ -66,20 +69,24 @@ Theorem C19_rename_truth_table : forall c c' old new, WF c -> rename_gate c old 
   forall vs, Forall2 (Eval c' a') (outputs c') vs <-> Forall2 (Eval c a) (outputs c) vs.
 Proof. exact rename_gate_outputs_sem. Qed.
 
-(* the same at the entry points: FULL statement would be
-     get_truth_table c' = get_truth_table c   (as results);
-   proved: whenever both calls return, the tables (and the results of evaluate on every input
-   vector, Boolean or not) are equal.  Missing: that the call on c' returns whenever the call on
-   c does (completeness of the evaluators, the other half of C01). *)
-Theorem C19_rename_evaluate_partial : forall c old new c' vals r r',
-  WF c -> rename_gate c old new = Ok c' ->
-  evaluate c vals = Ok r -> evaluate c' vals = Ok r' -> r = r'.
-Proof. exact rename_gate_evaluate. Qed.
+(* the same at the entry points, as equalities of results, for EVERY well-formed circuit (no
+   arity hypothesis) and every value vector (three-valued, any length): evaluate takes its
+   values positionally, so it does not see the renaming; the two runs of the stack evaluator
+   proceed in lock step (Proofs/EvalRenameGate.v), so values and errors coincide - e.g. a gate
+   whose operator rejects its operand count raises the same error at the same point *)
+Theorem C19_rename_evaluate : forall c c' old new, WF c -> rename_gate c old new = Ok c' ->
+  forall vals, evaluate c' vals = evaluate c vals.
+Proof. exact rename_gate_evaluate_all. Qed.
 
-Theorem C19_rename_get_truth_table_partial : forall c old new c' t t',
-  WF c -> rename_gate c old new = Ok c' ->
-  get_truth_table c = Ok t -> get_truth_table c' = Ok t' -> t = t'.
-Proof. exact rename_gate_truth_table. Qed.
+Theorem C19_rename_get_truth_table : forall c c' old new, WF c -> rename_gate c old new = Ok c' ->
+  get_truth_table c' = get_truth_table c.
+Proof. exact rename_gate_truth_table_all. Qed.
+
+(* with accepted arities both calls return (completeness of the evaluators, C01) *)
+Theorem C19_rename_get_truth_table_returns : forall c old new c',
+  WF c -> arity_ok c -> rename_gate c old new = Ok c' ->
+  exists tt, get_truth_table c = Ok tt /\ get_truth_table c' = Ok tt.
+Proof. exact rename_gate_truth_table_ok. Qed.
 
 (* ================= replace_inputs ================= *)
 (* the state: constants without operands replace the chosen INPUT gates, the remaining inputs keep
@@ -113,6 +120,41 @@ Theorem C19_replace_inputs_cofactor_assignment : forall c ts fs c' a',
   WF c -> replace_inputs c ts fs = Ok c' ->
   forall l v, Eval c' a' l v <-> Eval c (cofactor_assignment a' ts fs) l v.
 Proof. exact replace_inputs_cofactor. Qed.
+
+(* the same at the entry points.  cofactor_list t f ins ts fs vals is the positional vector for
+   the original input list: the inputs in fs get f, those in ts get t, the remaining ones consume
+   vals in order.  evaluate on the result = evaluate on the original circuit with the constants
+   filled in, as results, for every (three-valued) vector of any length *)
+Theorem C19_replace_inputs_evaluate : forall c ts fs c' vals',
+  Inv c -> arity_ok c -> replace_inputs c ts fs = Ok c' ->
+  evaluate c' vals' = evaluate c (cofactor_list T F (inputs c) ts fs vals').
+Proof. exact replace_inputs_evaluate. Qed.
+
+(* and the truth table of the result is the cofactor of the original truth table: both calls
+   return, and row j, column x of the new table is row j, column (x with the constants filled in)
+   of the old one (val_be x = the index of the Boolean vector x in the table order, C01) *)
+Theorem C19_replace_inputs_truth_table : forall c ts fs c',
+  Inv c -> arity_ok c -> replace_inputs c ts fs = Ok c' ->
+  exists tt tt', get_truth_table c = Ok tt /\ get_truth_table c' = Ok tt' /\
+    length tt = length (outputs c) /\ length tt' = length (outputs c) /\
+    forall j x, j < length (outputs c) -> length x = length (inputs c') ->
+      exists row row' v, nth_error tt j = Some row /\ nth_error tt' j = Some row' /\
+        nth_error row' (val_be x) = Some v /\
+        nth_error row (val_be (cofactor_list true false (inputs c) ts fs x)) = Some v.
+Proof. exact replace_inputs_truth_table. Qed.
+
+Theorem C19_replace_inputs_arities_accepted : forall c ts fs c',
+  WF c -> arity_ok c -> replace_inputs c ts fs = Ok c' -> arity_ok c'.
+Proof. exact replace_inputs_arity_ok. Qed.
+
+Example C19_replace_inputs_entry_example :
+  arity_ok C19_ex /\
+  cofactor_list T F (inputs C19_ex) ["x"] ["z"] [F] = [T; F; F] /\
+  exists c', replace_inputs C19_ex ["x"] ["z"] = Ok c' /\
+    evaluate c' [F] = Ok [T; F] /\ evaluate C19_ex [T; F; F] = Ok [T; F] /\
+    get_truth_table c' = Ok [[T; F]; [F; T]] /\
+    get_truth_table C19_ex = Ok [[T; F; T; F; T; F; F; F]; [F; F; F; F; F; F; T; T]].
+Proof. exact C19_ex_entry. Qed.
 
 (* ================= remove_gate ================= *)
 (* succeeds only for an existing gate nobody uses *)
@@ -186,6 +228,36 @@ Theorem C19_replace_subcircuit_truth_table : forall c sub imap omap fresh c' a a
   outputs c' = map (ren_all (imap ++ omap)) (outputs c) /\
   forall vs, Forall2 (Eval c' a') (outputs c') vs <-> Forall2 (Eval c a) (outputs c) vs.
 Proof. exact replace_subcircuit_outputs_sem'. Qed.
+
+(* the same at the entry points.  The result has accepted arities when host and replacement have;
+   if moreover no primary input is removed (inputs c' = the renamed inputs of c: an input that is
+   itself a replaced output would disappear from the input list), a replacement that is
+   functionally equivalent under the correspondence for every host assignment leaves evaluate
+   (every value vector) and get_truth_table unchanged, as results *)
+Theorem C19_replace_subcircuit_arities_accepted : forall c sub imap omap fresh c',
+  WF c -> WF sub -> replace_subcircuit c sub imap omap fresh = Ok c' ->
+  arity_ok c -> arity_ok sub -> arity_ok c'.
+Proof. exact replace_subcircuit_arity_ok. Qed.
+
+Theorem C19_replace_subcircuit_outputs : forall c sub imap omap fresh c',
+  WF c -> WF sub -> replace_subcircuit c sub imap omap fresh = Ok c' ->
+  outputs c' = map (ren_all (imap ++ omap)) (outputs c).
+Proof. exact replace_subcircuit_outputs. Qed.
+
+Theorem C19_replace_subcircuit_evaluate : forall c sub imap omap fresh c',
+  Inv c -> Inv sub -> arity_ok c -> arity_ok sub -> replace_subcircuit c sub imap omap fresh = Ok c' ->
+  inputs c' = map (ren_all (imap ++ omap)) (inputs c) ->
+  (forall a b, (forall k, In k (dkeys imap) -> Eval c a k (aval b (ren_all (imap ++ omap) k))) ->
+               forall k v, In k (dkeys omap) -> Eval c a k v -> Eval sub b (ren_all (imap ++ omap) k) v) ->
+  (forall vals, evaluate c' vals = evaluate c vals) /\ get_truth_table c' = get_truth_table c.
+Proof. exact replace_subcircuit_entry_eq. Qed.
+
+Example C19_replace_subcircuit_entry_example :
+  arity_ok C19_rs_sub /\
+  exists c', replace_subcircuit C19_rs_host C19_rs_sub C19_rs_imap C19_rs_omap "f" = Ok c' /\
+    inputs c' = map (ren_all (C19_rs_imap ++ C19_rs_omap)) (inputs C19_rs_host) /\
+    get_truth_table c' = Ok [[T; T; T; T]] /\ get_truth_table C19_rs_host = Ok [[T; T; T; T]].
+Proof. exact C19_rs_entry_ok. Qed.
 
 (* or it raises one of the documented errors (the model's fuel is adequate: never OutOfFuel) *)
 Theorem C19_replace_subcircuit_errors : forall c sub imap omap fresh e,
